@@ -40,7 +40,9 @@ ASSUMPTIONS = [
     "as a linear function, fixed, slack 8 added once per composition; compositions are bounded by the "
     "composed needs",
     "data-dependent transformations (filter, uniquify, group, run-length, truthy indices) are only used as "
-    "the first stage, on a source whose values are known, because their need depends on the values",
+    "the first stage, on a source whose values are known, because their need depends on the values; the catalogue "
+    "additionally has six fixed pipelines in which such a transformation follows one whose items are pairwise "
+    "distinct (prefixes / enumerate, rows plain or turned lazy by arithmetic or a map), where its need is known",
     "'terminates' is the bounded statement 'returns within the pull budget'; a run that neither returns "
     "nor pulls is reported inconclusive (watchdog), never held or violated",
     "value reference: the same program on a finite prefix of the source (plain list when short, else a "
